@@ -1,6 +1,7 @@
 package engines
 
 import (
+	"strconv"
 	"errors"
 	"fmt"
 	"os"
@@ -41,7 +42,7 @@ import (
 //   lookup-found-mismatch / lookup-error-kind   known names resolve, unknown names and "" fail with ErrTermNotFound
 //   synth-256 / synth-base / env-truecolor      the pristine result differs from the reference in the 256-colour
 //                           strings / in inherited fields / in the 24-bit strings (COLORTERM, TCELL_TRUECOLOR table)
-//   db-unresolved db-alias-unresolved db-no-cursor db-colors-inconsistent db-key-prefix   database obligations;
+//   db-unresolved db-alias-unresolved db-no-cursor db-colors-inconsistent db-color-string-wrong db-key-prefix   database obligations;
 //   parameterised strings are judged by the Lean reference (Derived "lookup T <arity> <field> <hex>" lines → class ref:illformed).
 
 var (
@@ -311,6 +312,33 @@ func lkDBChecks(name string, e *terminfo.Terminfo, ents map[string]*terminfo.Ter
 	}
 	if e.Colors == 0 && (e.SetFgRGB != "" || e.SetBgRGB != "" || e.SetFgBgRGB != "" || e.TrueColor) {
 		add("db-colors-inconsistent", fmt.Sprintf("entry %q: Colors=0 but direct-colour capability present", e.Name))
+	}
+	// colour count consistent with what the colour strings DO: every palette index below the count (capped at 256, the
+	// largest index TColor passes) must be selected by SetFg / SetBg / SetFgBg (ECMA-48 family only; reading of the
+	// output by lkSgr, written from ECMA-48 / xterm ctlseqs)
+	if strings.HasPrefix(e.SetCursor, "\x1b[") && hasFgBg && e.Colors > 0 {
+		n := e.Colors
+		if n > 256 {
+			n = 256
+		}
+		bad := 0
+		for i := 0; i < n && bad < 2; i++ {
+			j := (i + 1) % n
+			if fg, bg, ok := lkSgr(e.TParm(e.SetFg, i)); !ok || fg != i || bg != -1 {
+				add("db-color-string-wrong", fmt.Sprintf("entry %q: Colors=%d but SetFg(%d) = %q selects fg=%d bg=%d (well-formed=%v), want fg=%d", e.Name, e.Colors, i, e.TParm(e.SetFg, i), fg, bg, ok, i))
+				bad++
+			}
+			if fg, bg, ok := lkSgr(e.TParm(e.SetBg, i)); !ok || bg != i || fg != -1 {
+				add("db-color-string-wrong", fmt.Sprintf("entry %q: Colors=%d but SetBg(%d) = %q selects fg=%d bg=%d (well-formed=%v), want bg=%d", e.Name, e.Colors, i, e.TParm(e.SetBg, i), fg, bg, ok, i))
+				bad++
+			}
+			if e.SetFgBg != "" {
+				if fg, bg, ok := lkSgr(e.TParm(e.SetFgBg, i, j)); !ok || fg != i || bg != j {
+					add("db-color-string-wrong", fmt.Sprintf("entry %q: Colors=%d but SetFgBg(%d,%d) = %q selects fg=%d bg=%d (well-formed=%v)", e.Name, e.Colors, i, j, e.TParm(e.SetFgBg, i, j), fg, bg, ok))
+					bad++
+				}
+			}
+		}
 	}
 	// parameterised strings: judged by the Lean reference (Tcell.TermSyntax.wellFormed)
 	v := reflect.ValueOf(*e)
@@ -784,4 +812,95 @@ func init() {
 	h.Register(&h.Engine{Name: "lookup",
 		Rule: "database obligations for every registered/shipped name; lookup histories (1-5 lookups, optional environment settings and synthetic AddTerminfo calls) over registered names, their -color/-88color/-256color/-truecolor variants (also stacked), unknown names and \"\"; distinct = distinct case line; non-trivial = some lookup succeeds or a database entry is examined",
 		Gen:  genLookup, Exec: execLookup})
+}
+
+// lkSgr reads a string that must consist of SGR control sequences only (CSI Pm m, padding $<..> ignored) and returns
+// the palette indices it leaves selected as foreground / background (-1 = not set, -2 = something else such as the
+// default colour or an RGB colour), following ECMA-48 §8.3.117 and xterm ctlseqs: 30-37 / 40-47 colours 0-7, 90-97 /
+// 100-107 colours 8-15, 38;5;n / 48;5;n and the colon forms 38:5:n / 48:5:n colour n, 39 / 49 default, 0 reset.
+func lkSgr(s string) (fg, bg int, ok bool) {
+	fg, bg = -1, -1
+	for len(s) > 0 {
+		if strings.HasPrefix(s, "$<") {
+			k := strings.IndexByte(s, '>')
+			if k < 0 {
+				return fg, bg, false
+			}
+			s = s[k+1:]
+			continue
+		}
+		if !strings.HasPrefix(s, "\x1b[") {
+			return fg, bg, false
+		}
+		k := 2
+		for k < len(s) && (s[k] >= '0' && s[k] <= '9' || s[k] == ';' || s[k] == ':') {
+			k++
+		}
+		if k >= len(s) || s[k] != 'm' {
+			return fg, bg, false
+		}
+		var ps [][]int
+		for _, f := range strings.Split(s[2:k], ";") {
+			var sub []int
+			for _, g := range strings.Split(f, ":") {
+				v := 0
+				if g == "" {
+					v = -1
+				} else if len(g) > 9 {
+					return fg, bg, false
+				} else {
+					v, _ = strconv.Atoi(g)
+				}
+				sub = append(sub, v)
+			}
+			ps = append(ps, sub)
+		}
+		s = s[k+1:]
+		for i := 0; i < len(ps); i++ {
+			p := ps[i]
+			set := func(which, v int) {
+				if which == 38 {
+					fg = v
+				} else {
+					bg = v
+				}
+			}
+			switch v := p[0]; {
+			case v == 38 || v == 48:
+				if len(p) >= 3 && p[1] == 5 { // colon form
+					set(v, p[2])
+				} else if len(p) == 1 && i+2 < len(ps) && len(ps[i+1]) == 1 && ps[i+1][0] == 5 && len(ps[i+2]) == 1 && ps[i+2][0] >= 0 {
+					set(v, ps[i+2][0])
+					i += 2
+				} else if len(p) == 1 && i+4 < len(ps) && ps[i+1][0] == 2 {
+					set(v, -2)
+					i += 4
+				} else if len(p) >= 2 && p[1] == 2 {
+					set(v, -2)
+				} else {
+					return fg, bg, false // incomplete extended colour selector
+				}
+			case len(p) != 1:
+				return fg, bg, false
+			case v >= 30 && v <= 37:
+				fg = v - 30
+			case v >= 40 && v <= 47:
+				bg = v - 40
+			case v >= 90 && v <= 97:
+				fg = v - 90 + 8
+			case v >= 100 && v <= 107:
+				bg = v - 100 + 8
+			case v == 39:
+				fg = -2
+			case v == 49:
+				bg = -2
+			case v == 0 || v == -1:
+				fg, bg = -2, -2
+			default:
+				// other attributes do not select a colour; a colour string has no business setting them
+				return fg, bg, false
+			}
+		}
+	}
+	return fg, bg, true
 }
